@@ -28,6 +28,28 @@ pub fn slot_of(id: NodeId) -> usize {
 }
 
 /// α: one record per storage slot, read through `as_slice()` and the `Node` accessors.
+/// As `observe`, but a live-looking node whose payload cannot be read shows `payload: None`
+/// (used where destructors are made to panic on purpose).
+pub fn observe_tolerant(arena: &Arena<Payload>) -> Vec<SlotObs> {
+    arena
+        .as_slice()
+        .iter()
+        .map(|n| {
+            let removed = n.is_removed();
+            SlotObs {
+                id: arena.get_node_id(n).expect("get_node_id of a node of this arena"),
+                removed,
+                links: [n.parent(), n.previous_sibling(), n.next_sibling(), n.first_child(), n.last_child()],
+                payload: if removed {
+                    None
+                } else {
+                    std::panic::catch_unwind(std::panic::AssertUnwindSafe(|| n.get().0)).ok()
+                },
+            }
+        })
+        .collect()
+}
+
 pub fn observe(arena: &Arena<Payload>) -> Vec<SlotObs> {
     arena
         .as_slice()
